@@ -188,7 +188,14 @@ func checkWindow(rp report, cs []bytecode.Type, failIP int) (clause, detail stri
 			return "report-window", fmt.Sprintf("instruction %d is %#016X in the code segment, the report prints %#016X", ln.IP, uint64(in), ln.Hex)
 		}
 		var parts []string
-		parts = append(parts, fmt.Sprint(in.OpCode()))
+		// the mnemonic of an instruction is the name the instruction set gives its opcode (looked up
+		// by identifier here, not through the printer under test); opcodes this table does not know
+		// yet are taken as printed
+		mn, known := c19Mnemonic[in.OpCode()]
+		if !known {
+			mn = fmt.Sprint(in.OpCode())
+		}
+		parts = append(parts, mn)
 		for _, t := range []string{operandText(in.Src2(), in.Src2Addr()), operandText(in.Src1(), in.Src1Addr()), operandText(in.Src0(), in.Src0Addr())} {
 			if t != "" {
 				parts = append(parts, t)
@@ -199,6 +206,21 @@ func checkWindow(rp report, cs []bytecode.Type, failIP int) (clause, detail stri
 		}
 	}
 	return "", ""
+}
+
+// c19Mnemonic: opcode (by its identifier in types/bytecode) -> the name the report must show for it.
+var c19Mnemonic = map[bytecode.OpCode]string{
+	bytecode.NOP: "NOP", bytecode.PUSH: "PUSH", bytecode.POP: "POP", bytecode.MOV: "MOV", bytecode.ADD: "ADD", bytecode.SUB: "SUB",
+	bytecode.MUL: "MUL", bytecode.DIV: "DIV", bytecode.MOD: "MOD", bytecode.INC: "INC", bytecode.NOT: "NOT", bytecode.AND: "AND",
+	bytecode.OR: "OR", bytecode.LT: "LT", bytecode.GT: "GT", bytecode.LE: "LE", bytecode.GE: "GE", bytecode.EQ: "EQ",
+	bytecode.NE: "NE", bytecode.LSH: "LSH", bytecode.RSH: "RSH", bytecode.FLIP: "FLIP", bytecode.IX1: "IX1", bytecode.IX2: "IX2",
+	bytecode.LEN: "LEN", bytecode.ARR: "ARR", bytecode.JMP: "JMP", bytecode.JMPF: "JMPF", bytecode.JMPT: "JMPT", bytecode.FUNC: "FUNC",
+	bytecode.CALL: "CALL", bytecode.RET: "RET", bytecode.CCONT: "CCONT", bytecode.DCONT: "DCONT", bytecode.RCONT: "RCONT", bytecode.SCONT: "SCONT",
+	bytecode.YIELD: "YIELD", bytecode.READ: "READ", bytecode.WRITE: "WRITE", bytecode.ATON: "ATON", bytecode.TOA: "TOA", bytecode.EXIT: "EXIT",
+	bytecode.PUSHTMP: "PUSHTMP", bytecode.ADDTMP: "ADDTMP", bytecode.SUBTMP: "SUBTMP", bytecode.MULTMP: "MULTMP", bytecode.DIVTMP: "DIVTMP", bytecode.MODTMP: "MODTMP",
+	bytecode.NOTTMP: "NOTTMP", bytecode.ANDTMP: "ANDTMP", bytecode.ORTMP: "ORTMP", bytecode.LTTMP: "LTTMP", bytecode.GTTMP: "GTTMP", bytecode.LETMP: "LETMP",
+	bytecode.GETMP: "GETMP", bytecode.EQTMP: "EQTMP", bytecode.NETMP: "NETMP", bytecode.LSHTMP: "LSHTMP", bytecode.RSHTMP: "RSHTMP", bytecode.FLIPTMP: "FLIPTMP",
+	bytecode.LENTMP: "LENTMP",
 }
 
 // shownAs reports whether printed is an acceptable rendering of a value whose full rendering is
